@@ -12,10 +12,10 @@ class C06(Prop):
     id = "C06"
     contract_modules = ["lexer", "transpiler"]
     extra_keys = ["vyxal/lexer.py::tokenise", "vyxal/transpile.py::transpile_token"]
-    trusted_base = ["CPython reads the double-quoted literal body q as pyval(q) (conformance-checked exhaustively on short bodies)", "z3 5.1 / cvc5 1.0.3 (unsat answers)", "textwrap.indent only adds leading spaces", "dictionary decompression (helpers.uncompress_dict) is outside the contracts: bounded only"]
+    trusted_base = ["CPython reads the double-quoted literal body q as pyval(q) (conformance-checked exhaustively on short bodies)", "z3 5.1 / cvc5 1.0.3 (unsat answers)", "textwrap.indent only adds leading spaces", "the dictionary tables themselves are never consulted on the proved paths (no dictionary digit in the text)"]
     paper_steps = [
         "chain, each link proved: quotify(s) == '`' + esc(s) + '`' (contract + lemma replace_chain_is_esc); esc(s) is a string body (escaped_text_is_a_string_body), so lex('`'+esc(s)+'`'+rest) starts with STRING(esc(s)) (tokenise == lex, string_payload_is_data); transpile_token(STRING(esc(s)), dict_compress=False) == stack.append(\"pyq(esc(s))\") (contract); pyval(pyq(esc(s))) == s (quoted_text_evaluates_back)",
-        "with dictionary compression on, uncompress_dict must leave esc(s) alone for printable ASCII: not under contract, bounded stand-in only",
+        "with dictionary compression on: helpers.uncompress_dict is proved to return its argument for every string body without dictionary digits (loop invariant), and escaping_adds_no_dictionary_digits shows esc(s) has none when s has none (printable ASCII has none: ground fact compression ∩ printable = ∅, C15)",
     ]
 
     def wants(self, name):
